@@ -353,8 +353,6 @@ def in_domain_value(rng, tk, optional=None):
         return ["str", "x" if txt.lower() in ("none", "auto") else txt]
     if tk in ("none", "strings"):
         l = [rng.choice(IDENTS) if rng.random() < 0.4 else rand_str(rng) for _ in range(rng.randint(0, 3))]
-        if len(l) == 1 and l[0].lower() in ("none", "auto"):
-            l.append("z")
         return ["list", [["str", s] for s in l]]
     if tk == "words":
         ws = [rand_word(rng) for _ in range(rng.randint(1, 3))]
@@ -407,7 +405,7 @@ def qtext(w):
 def out_of_domain_value(rng, tk):
     """(value spec, finding kind or None): a value that breaks the type's bounds / sizes / alternatives / None rule."""
     if tk == "int09":
-        return ["int", str(rng.choice([-1, 10, 99, -10 ** 30]))], "scalar-bounds"
+        return ["int", str(rng.choice([-1, 10, 99, -10 ** 30]))], None
     if tk == "intnn":
         return ["none"], None
     if tk == "ints2":
@@ -456,14 +454,17 @@ class ConvRoundTrip(Stream):
     def corpus(self):
         return [
             # witnesses of recorded defects (in the property's domain only while listed open in known_findings.json)
-            ["strings", None, ["list", [["str", "None"]]], "witness:strings-none"],
             ["path", None, ["str", "~/x"], "witness:path-tilde"],
-            ["int09", None, ["int", "99"], "witness:scalar-bounds"],
             ["intsna", None, ["list", [["none"]]], "witness:single-none-element"],
             ["ints", None, ["list", []], "witness:empty-list-text"],
             ["strings", None, ["list", [["str", "x\ny"], ["str", "z"]]], "witness:multiline-before-more"],
+            # repaired defects (must pass): 7891807 a strings item spelt None/Auto is written quoted; b77ba3d scalar bounds
+            ["strings", None, ["list", [["str", "None"]]], "dom"],
+            ["strings", None, ["list", [["str", "auto"]]], "dom"],
+            ["none", None, ["list", [["str", "Auto"]]], "dom"],
+            ["int09", None, ["int", "99"], "ood"],
+            ["int09", None, ["int", "-1"], "ood"],
             # regression cases
-            ["none", None, ["list", [["str", "Auto"]]], "ood"],
             ["strings", None, ["list", []], "dom"],
             ["str", None, ["str", "None"], "dom"],
             ["str", None, ["str", ""], "dom"],
@@ -588,15 +589,10 @@ class ConvRoundTrip(Stream):
 
     def finding_kind(self, case):
         tk, opt, vs, tag = case
-        if tk in ("strings", "none") and vs[0] == "list" and len(vs[1]) == 1 and vs[1][0][0] == "str" \
-                and vs[1][0][1].lower() in ("none", "auto"):
-            return "strings-none"
         if tk == "path" and vs[0] == "str" and vs[1].startswith("~"):
             return "path-tilde"
         if tk == "intsna" and vs[0] == "list" and len(vs[1]) == 1 and vs[1][0][0] in ("none", "auto"):
             return "single-none-element"
-        if tk == "int09" and vs[0] == "int" and not (0 <= int(vs[1]) <= 9):
-            return "scalar-bounds"
         return None
 
     def prop(self, case, o):
@@ -604,7 +600,7 @@ class ConvRoundTrip(Stream):
         kind = self.finding_kind(case)
         pre = "[%s] " % kind if kind else ""
         fo, xo, to = o
-        if tag == "ood" or (kind == "scalar-bounds"):
+        if tag == "ood":
             # formatting must refuse instead of writing text that does not read back
             if fo[0] == "ok":
                 return pre + "format wrote %r for the out-of-domain value %r" % ([w[0] for w in fo[1][2]], vs)
@@ -641,7 +637,7 @@ class ConvRoundTrip(Stream):
         if tag.startswith("excluded:") or tag in ("ill", "any", "order"):
             return False
         if self.finding_kind(case) is not None:
-            return False                      # recorded defects: strings-none, path-tilde, scalar-bounds, single-none-element
+            return False                      # recorded defects: path-tilde, single-none-element
         return True
 
     def key(self, case, o):
@@ -848,7 +844,7 @@ class FloatRoundTrip(Stream):
                 return False
             y = round10(float(x))
             if t.value_min is not None and not (x >= t.value_min and y >= t.value_min):
-                return False                  # scalar-bounds (recorded defect) and rounding across a bound
+                return False                  # out of bounds (refused since b77ba3d), or rounding across a bound
             if t.value_max is not None and not (x <= t.value_max and y <= t.value_max):
                 return False
         return True
